@@ -526,6 +526,20 @@ func c17Run(t *testing.T, out *verifh.Out, r *verifh.Rand, g c17Gen, cfg *config
 	e.observe("stopped", r, r.Chance(30), false)
 }
 
+var errC17Panic = fmt.Errorf("verif: RouterAdvertisement panicked")
+
+// c17Build evaluates the RA as built now; a panic of the real code (to be observed by the scrape / request below,
+// where it is the violation) must not take the driver down.
+func c17Build(ifi config.Interface) (ra *ndp.RouterAdvertisement, err error) {
+	defer func() {
+		if r := recover(); r != nil {
+			ra, err = nil, errC17Panic
+		}
+	}()
+	ra, _, err = ifi.RouterAdvertisement(true)
+	return ra, err
+}
+
 func (e *c17Env) impl(id, msg string) {
 	e.out.Emit(verifh.Case{ID: e.prefix + id, ImplViolation: msg, Input: map[string]any{"toml": e.g.toml}, Tags: []string{"impl"}})
 }
@@ -583,8 +597,10 @@ func (e *c17Env) observe(point string, r *verifh.Rand, inject, routes bool) {
 		build := "(Err 0%N)"
 		if ifi.Advertise {
 			advertising++
-			ra, _, err := ifi.RouterAdvertisement(true)
+			ra, err := c17Build(ifi)
 			switch {
+			case err == errC17Panic:
+				build = "(Err 4%N)"
 			case err == nil:
 				build = verifh.App("Ok", coqRA(ra, e.in))
 				options += len(ra.Options)
